@@ -88,7 +88,8 @@ def run_program(chk, da, prog, sources, optimize, coq_cases):
     chk.count(f"graph:{'opt' if optimize else 'raw'}:{min(len(dsk) // 10 * 10, 100)}+tasks")
     if problems:
         chk.violation("; ".join(problems[:3]), {**desc, "optimize_graph": optimize, "tasks": len(dsk)},
-                      signature={"class": "graph", "problem": problems[0][:30].strip("0123456789 "), "root_op": prog[0]})
+                      signature={"class": "graph", "problem": problems[0][:30].strip("0123456789 "), "root_op": prog[0],
+                                 "has_broadcast_to": any(q[0] == "broadcast_to" for q in progs.all_nodes(prog))})
     else:
         chk.traces_validated += 1
         if G is not None and len(dsk) <= 1500:
@@ -113,12 +114,12 @@ def run(chk: Check):
     for tag, prog, sources in c01.CORPUS:
         if tag in ("F20",):
             run_program(chk, da, prog, sources, True, coq_cases)
-    n = 8000 if chk.tier == "thorough" else 1200
+    n = 8000 if chk.tier == "thorough" else 800
     for i, (prog, sources, want) in enumerate(progs.gen_programs(chk.rng, n)):
         run_program(chk, da, prog, sources, optimize=(i % 2 == 0), coq_cases=coq_cases)
     if G is not None and coq_cases:
         if chk.tier == "quick":
-            coq_cases = coq_cases[:400]      # the rest is checked by the Python analysis only (coqc parsing dominates)
+            coq_cases = coq_cases[:200]      # the rest is checked by the Python analysis only (coqc parsing dominates)
         bad = G.coq_check_graphs([c[0] for c in coq_cases])
         chk.extra["graphs_checked_in_coq"] = len(coq_cases)
         for i in bad[:5]:
